@@ -87,7 +87,8 @@ fn event_name(e: &EventKind) -> &'static str {
 /// Returns the interleaving part of the signature: ordered (trigger kind, event-or-fault kind).
 pub fn account(ev: &mut Eval, sc: &Scenario, res: &RunResult) -> String {
     ev.runs += 1;
-    ev.sim_ns += res.kernel.clock_ns;
+    // a jump of the simulated clock over a never-ending sleep is not simulated time covered
+    ev.sim_ns = ev.sim_ns.saturating_add(res.kernel.clock_ns.min(sc.sched.max_ns));
     ev.sim_calls += res.kernel.seq;
     ev.trace_hash ^= res.kernel.trace_hash.rotate_left((ev.runs % 63) as u32);
     let mut sig = String::new();
